@@ -131,32 +131,88 @@ Section JWT.
   (* doParseToken succeeded with this secret *)
   Definition parse1 (now k : Z) (t : token) : bool := sig_ok k t && time_ok now t.
 
+  (* incrementCount: when the reset period is over ([rs]; tp.resetTime is never advanced, so
+     once over it stays over) the whole history is dropped before the hit is counted *)
+  Definition count_hit (rs : bool) (k : Z) (h : history) : history :=
+    bump k (if rs then [] else h).
+
   (* ParseToken: order by hit counters, count the secret that verified *)
-  Definition parse_token (h : history) (c : jcfg) (now : Z) (t : token) : history * bool :=
+  Definition parse_token (rs : bool) (h : history) (c : jcfg) (now : Z) (t : token) : history * bool :=
     match jprev c with
     | Some p =>
       let '(first, second) :=
         if load_count h (jsecret c) >? load_count h p then (jsecret c, p) else (p, jsecret c) in
-      if parse1 now first t then (bump first h, true)
-      else if parse1 now second t then (bump second h, true)
+      if parse1 now first t then (count_hit rs first h, true)
+      else if parse1 now second t then (count_hit rs second h, true)
       else (h, false)
     | None => (h, parse1 now (jsecret c) t)
     end.
 
+  (* the error of one doParseToken, as the bit set of jwt.ValidationError.Errors
+     (0 = no error; -1 = request.ErrNoTokenInRequest, which is not a ValidationError):
+     Malformed = 1, Unverifiable = 2 (alg missing / not registered), SignatureInvalid = 4
+     (returned before the claims are looked at), Expired = 16, IssuedAt = 32, NotValidYet = 128 *)
+  Definition err1 (now k : Z) (cr : cred) : Z :=
+    match cr with
+    | CMissing => -1
+    | CMalformed => 1
+    | CToken t =>
+      match talg t with
+      | AUnknown => 2
+      | _ => if sig_ok k t then
+               (if exp_ok now t then 0 else 16) + (if iat_ok now t then 0 else 32) + (if nbf_ok now t then 0 else 128)
+             else 4
+      end
+    end.
+
+  (* the error ParseToken returns (handed to the unauthorized callback): with two secrets it
+     is the error of the SECOND attempt, so it shows which secret was tried first *)
+  Definition parse_err (h : history) (c : jcfg) (now : Z) (cr : cred) : Z :=
+    match jprev c with
+    | Some p =>
+      let '(first, second) :=
+        if load_count h (jsecret c) >? load_count h p then (jsecret c, p) else (p, jsecret c) in
+      if err1 now first cr =? 0 then 0 else err1 now second cr
+    | None => err1 now (jsecret c) cr
+    end.
+
   (* Authorize *)
-  Definition authorize (h : history) (c : jcfg) (now : Z) (cr : cred) : history * jresult :=
+  Definition authorize_rs (rs : bool) (h : history) (c : jcfg) (now : Z) (cr : cred) : history * jresult :=
     match cr with
     | CToken t =>
-      let '(h', ok) := parse_token h c now t in
+      let '(h', ok) := parse_token rs h c now t in
       if ok then (h', mkJres true 200 (deliver t)) else (h', unauthorized)
     | _ => (h, unauthorized)
     end.
+
+  (* handler.Authorize creates its parser with the default reset period (24 h) *)
+  Definition authorize := authorize_rs false.
 
   Fixpoint run_jwt (h : history) (c : jcfg) (reqs : list (Z * cred)) : list jresult :=
     match reqs with
     | [] => []
     | (now, cr) :: reqs' =>
       let '(h', r) := authorize h c now cr in r :: run_jwt h' c reqs'
+    end.
+
+  (* one TokenParser driven directly: every call brings its own (secret, prevSecret); the
+     observation is the error code (0 = token returned) *)
+  Fixpoint run_parser (rs : bool) (h : history) (calls : list (jcfg * Z * cred)) : list Z :=
+    match calls with
+    | [] => []
+    | (c, now, cr) :: calls' =>
+      let e := parse_err h c now cr in
+      let h' := fst (authorize_rs rs h c now cr) in
+      e :: run_parser rs h' calls'
+    end.
+
+  (* the Authorize middleware with an UnauthorizedCallback: the error it is called with
+     (0: not called) next to the result *)
+  Fixpoint run_jwt_err (h : history) (c : jcfg) (reqs : list (Z * cred)) : list (jresult * Z) :=
+    match reqs with
+    | [] => []
+    | (now, cr) :: reqs' =>
+      let '(h', r) := authorize h c now cr in (r, parse_err h c now cr) :: run_jwt_err h' c reqs'
     end.
 End JWT.
 
@@ -200,6 +256,7 @@ Definition crypt_blocks (f : list Z -> list Z) (l : list Z) : list Z :=
   if (len l) mod bs =? 0 then ecb_go (length l) f l else repeat 0 (length l).
 
 Section CRYPT.
+  Variable ulfix : bool.                            (* the unknown-length repair is in the tree *)
   Variable aes_ok : Z -> bool.                      (* aes.NewCipher accepts the key *)
   Variable E D : Z -> list Z -> list Z.             (* key -> block -> block *)
   Variable b64enc : list Z -> list Z.
@@ -226,20 +283,37 @@ Section CRYPT.
     | _ => match ecb_encrypt key resp with Ok c => b64enc c | _ => [] end
     end.
 
+  (* base64-decode, decrypt, hand the plaintext to the route handler *)
+  Definition decrypt_and_serve (key : Z) (content resp : list Z) : hout :=
+    match b64dec content with
+    | None => mkHout false 400 [] [] false
+    | Some ct =>
+      match ecb_decrypt key ct with
+      | Ok p => mkHout true 200 p (flush key resp) false
+      | Err => mkHout false 400 [] [] false
+      | Panic => mkHout false 0 [] [] true
+      end
+    end.
+
   (* LimitCryptionHandler around a route handler that reads the whole body and answers
-     200 with [resp]; [clen] = r.ContentLength, [wire] = the bytes of the body *)
+     200 with [resp]; [clen] = r.ContentLength, [wire] = the bytes of the body.
+     [ulfix] (regenerated from the source, coq/gen/C18Consts.v: unknown_length_fix) tells whether
+     the tree has the repair pending/C18-unknown-length.diff: without it every request with
+     ContentLength <= 0 is passed through untouched; with it only ContentLength = 0 is, and a
+     body of unknown length (-1, chunked) is read up to the limit and decrypted like any other
+     (an empty one is passed through) *)
   Definition crypt_handler (limit key clen : Z) (wire resp : list Z) : hout :=
-    if clen <=? 0 then mkHout true 200 wire (flush key resp) false
-    else if (0 <? limit) && (limit <? clen) then mkHout false 400 [] [] false
-    else match b64dec wire with
-         | None => mkHout false 400 [] [] false
-         | Some ct =>
-           match ecb_decrypt key ct with
-           | Ok p => mkHout true 200 p (flush key resp) false
-           | Err => mkHout false 400 [] [] false
-           | Panic => mkHout false 0 [] [] true
-           end
-         end.
+    if (if ulfix then clen =? 0 else clen <=? 0) then mkHout true 200 wire (flush key resp) false
+    else if 0 <? clen then
+      if (0 <? limit) && (limit <? clen) then mkHout false 400 [] [] false
+      else if len wire <? clen then mkHout false 400 [] [] false       (* io.ReadFull: fewer bytes than announced *)
+      else decrypt_and_serve key (firstn (Z.to_nat clen) wire) resp       (* exactly ContentLength bytes are read *)
+    else
+      if (0 <? limit) && (limit <? len wire) then mkHout false 400 [] [] false
+      else match wire with
+           | [] => mkHout true 200 [] (flush key resp) false
+           | _ => decrypt_and_serve key wire resp
+           end.
 End CRYPT.
 
 (* ------------------------------------------------------------------------- *)
@@ -273,8 +347,21 @@ Definition code_z (c : cs_code) : Z :=
 (* the string that is signed: timestamp \n method \n path \n query \n hex(sha256(body)) *)
 Definition content := (Z * Z * Z * Z * Z)%type.
 
+(* decrypters[fingerprint] = decrypter, in the order of SignatureConf.PrivateKeys: for a
+   repeated fingerprint the last entry wins *)
+Fixpoint find_key (fp : Z) (decs : list (Z * Z)) : option Z :=
+  match decs with
+  | [] => None
+  | (f, k) :: decs' =>
+    match find_key fp decs' with
+    | Some k' => Some k'
+    | None => if fp =? f then Some k else None
+    end
+  end.
+
 Section CS.
-  Variable rsa_dec : Z -> Z -> option cs_secret.  (* fingerprint, ciphertext -> parsed plaintext *)
+  Variable ulfix : bool.
+  Variable rsa_dec : Z -> Z -> option cs_secret.  (* private key, ciphertext -> parsed plaintext *)
   Variable cmac : Z -> content -> Z.              (* HmacBase64 *)
   Variable sha : list Z -> Z.
   Variable aes_ok : Z -> bool.
@@ -282,12 +369,14 @@ Section CS.
   Variable b64enc : list Z -> list Z.
   Variable b64dec : list Z -> option (list Z).
 
-  (* ParseContentSecurity: (key, secret, type, signature) *)
-  Definition parse_cs (decs : list Z) (r : cs_req) : option (Z * cs_secret * Z * Z) :=
+  (* ParseContentSecurity: (key, secret, type, signature).  [decs] is the route group's own
+     map fingerprint -> private key (engine.signatureVerifier builds one per group) *)
+  Definition parse_cs (decs : list (Z * Z)) (r : cs_req) : option (Z * cs_secret * Z * Z) :=
     match h_fp (r_hdr r), h_secret (r_hdr r), h_sig (r_hdr r) with
     | Some fp, Some sc, Some sg =>
-      if memz fp decs then
-        match rsa_dec fp sc with
+      match find_key fp decs with
+      | Some kid =>
+        match rsa_dec kid sc with
         | Some sec =>
           match sk_key sec, sk_ctype sec with
           | Some key, Some ct => Some (key, sec, ct, sg)
@@ -295,7 +384,8 @@ Section CS.
           end
         | None => None
         end
-      else None
+      | None => None
+      end
     | _, _, _ => None
     end.
 
@@ -324,28 +414,30 @@ Section CS.
   Definition on_failure (strict : bool) : cs_action := if strict then ActReject else ActNext.
 
   (* LimitContentSecurityHandler with the default callback; also the code handed to callbacks *)
-  Definition cs_gate (strict : bool) (decs : list Z) (tol now : Z) (r : cs_req) : cs_action * option cs_code :=
+  Definition cs_gate (strict : bool) (decs : list (Z * Z)) (tol now : Z) (r : cs_req) : cs_action * option cs_code :=
     if checked (r_method r) then
       match parse_cs decs r with
       | None => (on_failure strict, Some CodeInvalidHeader)
       | Some (key, sec, ct, sg) =>
         match verify now tol r key sec sg with
-        | CodePass => (if (0 <? r_clen r) && (ct =? 1) then ActCrypt key else ActNext, None)
+        | CodePass => (if (if ulfix then negb (r_clen r =? 0) else 0 <? r_clen r) && (ct =? 1)
+                       then ActCrypt key else ActNext, None)
         | c => (on_failure strict, Some c)
         end
       end
     else (ActNext, None).
 
-  Definition cs_handler (strict : bool) (decs : list Z) (tol now limit : Z) (r : cs_req) (resp : list Z) : hout :=
+  Definition cs_handler (strict : bool) (decs : list (Z * Z)) (tol now limit : Z) (r : cs_req) (resp : list Z) : hout :=
     match fst (cs_gate strict decs tol now r) with
     | ActReject => mkHout false 403 [] [] false
     | ActNext => mkHout true 200 (r_body r) resp false
-    | ActCrypt key => crypt_handler aes_ok E D b64enc b64dec limit key (r_clen r) (r_body r) resp
+    | ActCrypt key => crypt_handler ulfix aes_ok E D b64enc b64dec limit key (r_clen r) (r_body r) resp
     end.
 End CS.
 
 (* engine.appendAuthHandler: Authorize first, then the signature verifier *)
 Section CHAIN.
+  Variable ulfix : bool.
   Variable mac : alg -> Z -> Z -> Z.
   Variable rsa_dec : Z -> Z -> option cs_secret.
   Variable cmac : Z -> content -> Z.
@@ -356,8 +448,8 @@ Section CHAIN.
   Variable b64dec : list Z -> option (list Z).
 
   Definition chain_handler (jc : jcfg) (jnow : Z) (cr : cred)
-             (strict : bool) (decs : list Z) (tol now limit : Z) (r : cs_req) (resp : list Z) : hout :=
+             (strict : bool) (decs : list (Z * Z)) (tol now limit : Z) (r : cs_req) (resp : list Z) : hout :=
     if jran (snd (authorize mac [] jc jnow cr)) then
-      cs_handler rsa_dec cmac sha aes_ok E D b64enc b64dec strict decs tol now limit r resp
+      cs_handler ulfix rsa_dec cmac sha aes_ok E D b64enc b64dec strict decs tol now limit r resp
     else mkHout false 401 [] [] false.
 End CHAIN.
